@@ -226,17 +226,19 @@ def obligations(tier):
     # ---------------------------------------------------------------- (f) dns.c record walkers
     obls.append(Obl(
         "dns_walkers", "dnswalk.c",
-        progs=[Prog("dns.c")], sysrename=["dn_expand"],
-        grid=[{"FN": f} for f in (0, 1, 2)], defines={"B": 40},
-        unwind_default=42, timeout=600,
-        functions=["dns.c:findname", "dns.c:findip", "dns.c:findmx", "dns.c:getshort"],
+        progs=[Prog("dns.c")], sysrename=["dn_expand"], repo=["stralloc_copy.c", "stralloc_opyb.c", "stralloc_pend.c", "byte_copy.c"],
+        grid=[{"FN": f} for f in (0, 1, 2, 3)], defines={"B": 40},
+        unwind_default=42, unwind=lambda p: {"resolve": 9} if p["FN"] == 3 else {}, timeout=600,
+        functions=["dns.c:findname", "dns.c:findip", "dns.c:findmx", "dns.c:getshort", "dns.c:resolve"],
         stubs=["dn_expand: resolver(3) contract (-1, or 1..bytes-remaining and a NUL-terminated name; -1 for a position outside the message)"],
         assumes=["response buffer of exactly 40 bytes, any contents; 0 < responselen < 40; responsepos - buf in 0..responselen+65535; "
                  "numanswers, wanttype any int"],
-        outside=["dns_ip()/dns_mxip()/resolve() as a whole (64 KiB EDNS re-allocation, HEADER bit-fields: no verdict in 400 s, DESIGN C20)"],
+        outside=["dns_ip()/dns_mxip() as a whole and resolve()'s 64 KiB EDNS retry (no verdict in 400 s, DESIGN C20); FN 3 covers resolve()'s "
+                 "question-section loop for replies with TC clear and at least a full header"],
         claim="findname/findip/findmx from any walker state: every read lies inside the response buffer; result in {0,1,2,DNS_SOFT}",
-        expect_witnesses=["no_more_answers", "record_found", "record_claims_data_beyond_response", "other_type_skipped",
-                          "soft_position_beyond_end", "soft_truncated_record"]))
+        expect_witnesses=lambda p: ["resolved", "two_questions_skipped", "soft_truncated_question", "reply_shorter_than_header"] if p["FN"] == 3 else
+        ["no_more_answers", "record_found", "record_claims_data_beyond_response", "other_type_skipped",
+         "soft_position_beyond_end", "soft_truncated_record"]))
     # ---------------------------------------------------------------- (g) numbers, addresses, dates
     FS = ["scan_ulong.c", "ip.c", "fmt_ulong.c", "fmt_uint.c", "fmt_uint0.c", "fmt_str.c", "date822fmt.c", "datetime.c"]
     obls.append(Obl("scan_ip", "fmtscan.c", repo=FS, defines={"KIND": 0},
